@@ -1990,8 +1990,14 @@ def _symbytes_decode(self, encoding="utf-8", errors="strict"):
                 else:
                     # a byte >= 0x80: whether the whole string is valid UTF-8 depends on its neighbours;
                     # both outcomes are explored (over-approximation of the decoder)
-                    E.fresh += 1
-                    if Bool("utf8_invalid!%d" % E.fresh):
+                    # one decision per distinct content: decoding equal bytes twice gives the same verdict
+                    import hashlib
+
+                    h = hashlib.sha1()
+                    for k in _range(n):
+                        x = self.items[k] if self.items is not None else self.get(z3.IntVal(k))
+                        h.update((str(x) if _isinstance(x, _int) else x.sexpr()).encode())
+                    if Bool("utf8_invalid!%s" % h.hexdigest()[:12]):
                         raise UnicodeDecodeError("utf-8", b"\x80", 0, 1, "invalid start byte")
                     return SymStr(SymBytes(n, self.get, self.items), "utf8")
     else:
